@@ -821,4 +821,149 @@ theorem policy_no_lockout (verdict : Str → SanVerdict) (subjects : List Str) :
 example : checkPolicy (fun x => if x = s "step" then .notAllowed else .allowed) [s "a", s "step"] = .lockOut := by
   decide
 
+/-! ## 7. an administration request is honoured only with a valid admin token -/
+
+theorem findAdmin_some {A : AColl} {pn : Str} {sans : List Str} {adm : Adm}
+    (h : findAdmin A pn sans = some adm) : ∃ san ∈ sans, A.bySubProv.get (san, pn) = some adm := by
+  induction sans with
+  | nil => simp [findAdmin] at h
+  | cons x r ih =>
+    unfold findAdmin at h
+    cases hx : A.bySubProv.get (x, pn) with
+    | some a => rw [hx] at h; cases h; exact ⟨x, List.mem_cons_self, hx⟩
+    | none =>
+      rw [hx] at h
+      obtain ⟨san, hs, hg⟩ := ih h
+      exact ⟨san, List.mem_cons_of_mem _ hs, hg⟩
+
+/-- what the time check means: not before `nbf − 1 min`, not after `exp + 1 min`, not issued more
+    than a minute in the future -/
+theorem timeOk_iff (r : AdminReq) : timeOk r = true ↔
+    (∀ n, r.nbf = some n → n ≤ r.now + 60) ∧ (∀ e, r.exp = some e → r.now - 60 ≤ e) ∧
+    (∀ i, r.iat = some i → i ≤ r.now + 60) := by
+  unfold timeOk
+  cases r.nbf <;> cases r.exp <;> cases r.iat <;> simp <;> omega
+
+/-- what the audience check means: one audience of the token is `https://<a CA name><path>` or
+    `<path>` for the path of *this* request (literally or after removing a port) -/
+theorem matchesAud_iff (as : List Aud) (bs : List Str) : matchesAud as bs = true ↔
+    ∃ b ∈ bs, ∃ a ∈ as, a.raw = b ∨ a.stripped = b := by
+  simp [matchesAud]
+
+/-- **admin_token_only_if** — `AuthorizeAdminToken` lets a request through only if: the token
+    parses, its x5c chain verifies to the CA roots for client authentication, the leaf may sign,
+    the token is signed by the leaf's key, the leaf was issued through a provisioner of this CA,
+    the token's reuse key was not seen before (and is recorded now), the time window holds, the
+    audience is this request's path, the issuer is the admin client or the provisioner, the
+    subject is not empty, a name of the leaf is registered as administrator of that provisioner
+    (that administrator is the one returned), and — for any request other than GET below
+    `/admin/admins` — that administrator is a super administrator. -/
+theorem admin_token_only_if (A : AColl) (used used' : List Str) (r : AdminReq) (adm : Adm)
+    (h : authorizeAdmin A used r = (used', .ok adm)) :
+    r.parseOk = true ∧ r.chainOk = true ∧ r.digSig = true ∧ r.sigOk = true ∧
+    ∃ pn, r.prov = some pn ∧
+      (∀ k, r.reuseKey = some k → k ∉ used ∧ used' = k :: used) ∧
+      timeOk r = true ∧ matchesAud r.aud (audiencesFor r.dnsNames r.path) = true ∧
+      (r.iss = adminClientIssuer ∨ r.iss = pn) ∧ r.sub ≠ [] ∧
+      (∃ san ∈ r.sans, A.bySubProv.get (san, pn) = some adm) ∧
+      (adminsPrefix.isPrefixOf r.path = true → r.method ≠ GET → adm.super = true) := by
+  unfold authorizeAdmin at h
+  by_cases h1 : r.parseOk = true <;> simp only [h1, Bool.not_true, Bool.not_false, if_true, if_false, Bool.false_eq_true] at h
+  swap; · simp at h
+  by_cases h2 : r.chainOk = true <;> simp only [h2, Bool.not_true, Bool.not_false, if_true, if_false, Bool.false_eq_true] at h
+  swap; · simp at h
+  by_cases h3 : r.digSig = true <;> simp only [h3, Bool.not_true, Bool.not_false, if_true, if_false, Bool.false_eq_true] at h
+  swap; · simp at h
+  by_cases h4 : r.sigOk = true <;> simp only [h4, Bool.not_true, Bool.not_false, if_true, if_false, Bool.false_eq_true] at h
+  swap; · simp at h
+  refine ⟨h1, h2, h3, h4, ?_⟩
+  cases hp : r.prov with
+  | none => simp [hp] at h
+  | some pn =>
+    simp only [hp] at h
+    refine ⟨pn, rfl, ?_⟩
+    split at h
+    · simp at h
+    rename_i hused
+    split at h
+    · simp at h
+    rename_i htime
+    split at h
+    · simp at h
+    rename_i haud
+    split at h
+    · simp at h
+    rename_i hiss
+    split at h
+    · simp at h
+    rename_i hsub
+    cases hf : findAdmin A pn r.sans with
+    | none => simp [hf] at h
+    | some a =>
+      simp only [hf] at h
+      split at h
+      · simp at h
+      rename_i hsuper
+      simp only [Prod.mk.injEq, AdminAuthz.ok.injEq] at h
+      obtain ⟨hu, ha⟩ := h
+      subst ha
+      refine ⟨?_, by simpa using htime, by simpa using haud, ?_, hsub, findAdmin_some hf, ?_⟩
+      · intro k hk
+        simp only [hk] at hused hu
+        exact ⟨by simpa using hused, hu.symm⟩
+      · by_cases hi : r.iss = adminClientIssuer
+        · exact .inl hi
+        · by_cases hj : r.iss = pn
+          · exact .inr hj
+          · exact absurd ⟨hi, hj⟩ hiss
+      · intro hpre hm
+        by_cases hs : a.super = true
+        · exact hs
+        · exact absurd ⟨hpre, hm, by simpa using hs⟩ hsuper
+
+/-- **only_super_changes_admins** — for *every* method string other than `GET` (no list of
+    verbs), a request below `/admin/admins` is authorized only for a super administrator. -/
+theorem only_super_changes_admins (A : AColl) (used used' : List Str) (r : AdminReq) (adm : Adm)
+    (hpath : adminsPrefix.isPrefixOf r.path = true) (hmethod : r.method ≠ GET)
+    (h : authorizeAdmin A used r = (used', .ok adm)) : adm.super = true := by
+  obtain ⟨_, _, _, _, pn, _, _, _, _, _, _, _, hs⟩ := admin_token_only_if A used used' r adm h
+  exact hs hpath hmethod
+
+/-- **single use** — a reuse key that has been recorded never authorizes again, whatever else the
+    request says; and an authorized request records its key. -/
+theorem admin_token_single_use (A : AColl) (used : List Str) (r : AdminReq) (k : Str)
+    (hk : r.reuseKey = some k) :
+    (k ∈ used → ∀ adm, (authorizeAdmin A used r).2 ≠ .ok adm) ∧
+    (∀ adm, (authorizeAdmin A used r).2 = .ok adm → k ∈ (authorizeAdmin A used r).1) := by
+  constructor
+  · intro hin adm heq
+    have := admin_token_only_if A used (authorizeAdmin A used r).1 r adm (by rw [← heq])
+    obtain ⟨_, _, _, _, pn, _, hu, _⟩ := this
+    exact (hu k hk).1 hin
+  · intro adm heq
+    have := admin_token_only_if A used (authorizeAdmin A used r).1 r adm (by rw [← heq])
+    obtain ⟨_, _, _, _, pn, _, hu, _⟩ := this
+    rw [(hu k hk).2]; exact List.mem_cons_self
+
+namespace Witness
+def ordAdm : Adm := { id := s "a9", sub := s "ord", provId := s "p0", super := false }
+def supAdm : Adm := { id := s "a0", sub := s "step", provId := s "p0", super := true }
+def tokA : AColl := { bySubProv := [((s "ord", s "jwk"), ordAdm), ((s "step", s "jwk"), supAdm)] }
+/-- a valid token of the ordinary admin `ord` for `PATCH /admin/admins/a9` -/
+def patchReq (method subj : String) : AdminReq :=
+  { parseOk := true, chainOk := true, digSig := true, sigOk := true, prov := some (s "jwk"),
+    reuseKey := some (s "jti1"), now := 1000, nbf := some 999, exp := some 1240, iat := some 1000,
+    aud := [⟨s "https://ca.verif.test/admin/admins/a9", s "https://ca.verif.test/admin/admins/a9"⟩],
+    dnsNames := [s "ca.verif.test"], path := s "/admin/admins/a9", method := s method,
+    iss := s "step-admin-client/1.0", sub := s subj, sans := [s subj] }
+end Witness
+
+/-- the hypotheses are satisfiable and the rule bites: the ordinary admin may GET, may not PATCH
+    (nor use a made-up verb); the super admin may PATCH; a replayed token is refused -/
+example : (authorizeAdmin tokA [] (patchReq "GET" "ord")).2 = .ok ordAdm ∧
+    (authorizeAdmin tokA [] (patchReq "PATCH" "ord")).2 = .unauthorized ∧
+    (authorizeAdmin tokA [] (patchReq "FROB" "ord")).2 = .unauthorized ∧
+    (authorizeAdmin tokA [] (patchReq "PATCH" "step")).2 = .ok supAdm ∧
+    (authorizeAdmin tokA [s "jti1"] (patchReq "PATCH" "step")).2 = .unauthorized := by decide
+
 end Verif.Admin
